@@ -9,7 +9,7 @@
    thresholds); [false] selects the code as it is now (memory consulted only on
    a current violation by a watcher that is not anergic). *)
 From Coq Require Import ZArith List Bool QArith.
-From Verif Require Import C17.Model C17.Proofs gen.Gen_C17.
+From Verif Require Import C17.Model C17.Proofs C17.ProofsWorld gen.Gen_C17.
 Import ListNotations.
 Open Scope Z_scope.
 
@@ -247,6 +247,50 @@ Theorem c17_inspect_uses_current_window :
        In (s, OTrain fp, out) (run rnd lg g s0 (lowered pf d0 (pre ++ ATrain :: post)))).
 Proof. exact current_window_proof. Qed.
 Print Assumptions c17_inspect_uses_current_window.
+
+(* Several agents under one ImmuneSystem (each with its own display, watcher and
+   tolerance record; memory, clock and configuration shared): [wrun pf rnd false g
+   w0 ops] is the trace of a history of API calls [(agent, call)] from an ARBITRARY
+   world [w0].  Agents are numbers; the harness maps them to id strings, among them
+   ids that differ only in case or outer whitespace — different ids are different
+   agents.  An inspection of agent k reports CONFIRMED / CRITICAL / isolate /
+   shutdown only when the fingerprint of k's OWN current window violates k's OWN
+   baseline and a second signal OF AGENT k is present: its own canary results, its
+   own manual flag, its own anomaly streak, or a threat remembered under its own
+   id ([remembered_of k]: a signature in the shared memory whose agent is k) — a
+   threat remembered about any other agent is not a signal *)
+Theorem c17_two_signals_per_agent :
+  forall pf rnd g w0 ops w k r sp,
+    In (w, k, AInspect, OutResp r sp) (wrun pf rnd false g w0 ops) -> threat r ->
+    exists t p, a_tcell (w_agents w k) = Some t /\
+                fingerprint pf (a_disp (w_agents w k)) = Some p /\
+                is_anergic t = false /\ check (t_prof t) p <> [] /\
+                (canary_failed (t_prof t) p = true \/ t_manual t = true \/ t_rep t <= t_anom t + 1 \/
+                 exists m, In m (w_mem w) /\ m_agent m = k /\ m_vh m = p_vh p /\ m_sh m = p_sh p).
+Proof. exact world_two_signals_proof. Qed.
+Print Assumptions c17_two_signals_per_agent.
+
+(* ... and nothing another agent does can create such a signal: any history of
+   calls about OTHER agents (their observations, canaries, trainings, flags,
+   resets, inspections that confirm and remember threats) leaves agent k's
+   display, watcher (flag, streak, anergy) and tolerance record exactly as they
+   were ... *)
+Theorem c17_calls_about_other_agents_leave_agent_alone :
+  forall pf rnd lg g ops w k,
+    Forall (fun ka => fst ka <> k) ops -> w_agents (wfinal pf rnd lg g w ops) k = w_agents w k.
+Proof. exact world_others_leave_agent. Qed.
+Print Assumptions c17_calls_about_other_agents_leave_agent_alone.
+
+(* ... and no call about agent j other than an explicit memory.store /
+   import_signatures (in particular no inspection of j, however it ends) adds to
+   what is remembered about another agent k: whatever is remembered about k with
+   the hashes of p afterwards was remembered about k before *)
+Theorem c17_calls_about_other_agents_remember_nothing_about_agent :
+  forall pf rnd lg g w j a w' out k p,
+    world_step pf rnd lg g w j a = (w', out) -> no_memory_edit a = true -> k <> j ->
+    remembered_of k (w_mem w') p -> remembered_of k (w_mem w) p.
+Proof. exact world_step_no_new_memory_of_others. Qed.
+Print Assumptions c17_calls_about_other_agents_remember_nothing_about_agent.
 
 (* the finite decision tables enumerated from the implementation on this run
    (TCell._determine_response over signal1 x signal2 x 0..4 violations x canary
